@@ -572,6 +572,7 @@ func (e *Exec) builtin(st *State, name string, x *ast.CallExpr) Val {
 		return e.lenOf(st, v, x.Pos())
 	case "append":
 		base := e.ev(st, x.Args[0])
+		e.builtinSiteChecks(st, "append", []Val{base}, x)
 		rt := info.TypeOf(x)
 		stt := rt.Underlying().(*types.Slice)
 		if isNilVal(base) {
